@@ -28,7 +28,7 @@ def parseKvs (j : Json) : Except String (List (String × Int)) := do
     let q ← p.getArr?
     return (← q[0]!.getStr?, ← q[1]!.getInt?)
 
-def parseSimple (j : Json) : Except String Simple := do
+def parseSimple (j : Json) : Except String SimpleOp := do
   match ← getStr j "op" with
   | "set" => return .set ⟨← getStr j "name", ← getStr j "what"⟩ (← getInt j "v")
   | "update" => return .update (← parseKvs (← j.getObjVal? "kvs"))
@@ -76,7 +76,7 @@ def keyIndex (keys : List Key) (k : Key) : Option Nat :=
   let i := keys.findIdx (fun x => x = k)
   if i < keys.length then some i else none
 
-def encSimple (keys : List Key) : Simple → Option Dispatch.Stmt
+def encSimple (keys : List Key) : SimpleOp → Option Dispatch.Stmt
   | .set k v => (keyIndex keys k).map (fun i => .set i v)
   | .update kvs => (kvs.mapM (fun kv => (keyIndex keys ⟨kv.1, "value"⟩).map (fun i => (i, kv.2)))).map .update
 
